@@ -21,11 +21,14 @@ CHECKS = {
 
 CHECKS.update({
     "C03": dict(
-        technique="static analysis: computed erasable-ADT set (type-graph reachability) + who-may-read rule over every MIR place projection + match-arm emptiness",
+        technique="static analysis: computed erasable-ADT set (type-graph reachability) + who-may-read rule over every MIR place projection + match-arm emptiness + token-kind set agreement in the parser (per-kind path following through chained tests and boolean kind-set helpers, Eof as the rejecting probe)",
         text="Decides the back-end clause of erasure exactly: outside the parser/AST no function of the crate reads a type-syntax "
              "node or a type slot (whole-slot transport excepted), and arms selecting type-only statements do no work, so emitted "
              "bytecode is a function of the AST minus annotations. Zero reads on the current tree, with a positive control. "
-             "It does not decide that the parser produces the same non-type AST with and without annotations.",
+             "Of the front-end clause it decides one finite part: the contextual-keyword token kinds that parse_identifier accepts "
+             "as names are names at every name site, start-set test and gate in front of a name acceptor (15 rejected-name sites "
+             "of the pinned tree reproduced as SyntaxErrors and repaired, fix: commits). It does not decide that the grammar as a "
+             "whole yields the same non-type AST with and without annotations.",
         ref="4/C03"),
     "C15": dict(
         technique="static analysis: match-arm regions of the opcode interpreter + who-may-cast rule + def-chain (greatest fixed point) inside conversion helpers",
@@ -57,11 +60,12 @@ CHECKS.update({
 
 CHECKS.update({
     "C17": dict(
-        technique="static analysis: null-test dominance on the MIR CFG for extern \"C\" pointer parameters (helper summaries, closures, array idiom), C header parser compared with compiled signatures/layouts, RefCell-guard-held-across-hazard forward dataflow, unguarded-store rule",
-        text="Decides four structural clauses over all 64 exported functions: every use of a raw-pointer parameter as a valid pointer "
+        technique="static analysis: null-test dominance on the MIR CFG for extern \"C\" pointer parameters (helper summaries, closures, array idiom), C header parser compared with compiled signatures/layouts, RefCell-guard-held-across-hazard forward dataflow, unguarded-store rule, value-origin rule for reported array lengths",
+        text="Decides five structural clauses over all 64 exported functions: every use of a raw-pointer parameter as a valid pointer "
              "is dominated by a NULL test; tsrun.h agrees with the compiled exports (names, arity, types, struct fields, enum "
              "values); no RefCell guard of a GC cell is held across a call that may collect or re-enter (abort in extern \"C\"); "
-             "possibly-object values stored across calls carry a guard. The fulfill_orders defect was repaired (fix: commit). "
+             "possibly-object values stored across calls carry a guard; every length reported next to a leaked boxed slice is the "
+             "len() of that very vector. The fulfill_orders defect was repaired (fix: commit). "
              "Aliasing and lifetime contracts of the API are not decided.",
         ref="4/C17"),
 })
@@ -105,9 +109,9 @@ CHECKS.update({
 
 CHECKS.update({
     "C02": dict(
-        technique="static analysis: type-directed trace coverage, who-may-write table for the register file, and guardflow - a forward may-analysis of guard protection (DNF protector sets) with backward liveness over MIR, interprocedural may-collect sets",
+        technique="static analysis: type-directed trace coverage (every branch of the tracer is a shape test), who-may-write table for the register file, and guardflow - a forward may-analysis of guard protection (DNF protector sets) with backward liveness over MIR, interprocedural may-collect sets",
         text="Decides three rooting clauses for every function: Traceable::trace visits every Gc-bearing field path reachable from "
-             "JsObject (71 obligations; dead types and one side-conditioned exemption aside); only set_reg and the frame swaps write "
+             "JsObject (71 obligations; dead types and one side-conditioned exemption aside) and never conditions a visit on plain data; only set_reg and the frame swaps write "
              "the register file; and no FRESH value (from a callee-returned Guarded or a local-guard allocation) is without a "
              "live guard at a call that may collect while still in use. The ten guardflow hazards of the pinned tree were "
              "reproduced as wrong results and repaired (fix: commit). Hazards needing a callback to unlink a heap-rooted object "
@@ -128,8 +132,8 @@ CHECKS.update({
 
 CHECKS.update({
     "C07": dict(
-        technique="static analysis: field-level taint from the running VM's fields into the aggregates built by save_state and from the saved state into the aggregates built by from_saved_state (closures included), against a reasoned exemption table",
-        text="Decides the state-capture clause: every field of the running VM and of every trampoline frame flows into the saved "
+        technique="static analysis: field-level taint from the running VM's fields into the aggregates built by save_state and from the saved state into the aggregates built by from_saved_state (closures included), against a reasoned exemption table; dominance of take_ready() by check_resolved_promises()",
+        text="Decides the state-capture clause and the no-lost-wake-up clause: every field of the running VM and of every trampoline frame flows into the saved "
              "state and back (caches and re-derived guards exempt by a reasoned table), and the restore re-guards what it puts "
              "back. The four fields the pinned tree lost across a suspension (this, the block-scope stack, pending finally "
              "completions of the VM and of frames) were reproduced with awaiting programs and repaired (fix: commit). Schedules, "
